@@ -1,0 +1,27 @@
+//go:build verif
+
+// Contracts for the govc verifier (see /verif/DESIGN.md). Comment-only file: with the
+// "verif" build tag off it is not compiled; with it on it contains only the package clause.
+
+package db
+
+// ---- C02: the chunk table of a file read back from the database tiles the file ----
+// readChunks returns the chunks of a file in ascending offset order (whatever order the database iterates them in: keys
+// are variable-length encodings, whose byte order is not numeric order), and the size of every chunk is the distance
+// to the next chunk's offset -- to the end of the file for the last one. The binary search in ChunkEntryForOffset and
+// the per-chunk reads rely on both.
+//@ func go.etcd.io/bbolt.(*Bucket).Get
+//@   trusted
+//@   modifies nothing
+//@ func go.etcd.io/bbolt.(*Bucket).Bucket
+//@   trusted
+//@   modifies nothing
+//@ func readChunks
+//@   props C02
+//@   arith math
+//@   requires b != nil
+//@   loop 0 invariant[C02] -1 <= i && i < len(chunks) && nextOffset == (i + 1 < len(chunks) ? chunks[i+1].chunkOffset : size)
+//@   loop 0 invariant[C02] forall k int :: i < k && k < len(chunks) ==> chunks[k].chunkSize == (k + 1 < len(chunks) ? chunks[k+1].chunkOffset : size) - chunks[k].chunkOffset
+//@   loop 0 invariant[C02] chbkt != nil ==> (forall a int, c int :: 0 <= a && a < c && c < len(chunks) ==> chunks[a].chunkOffset <= chunks[c].chunkOffset)
+//@   ensures[C02] err == nil ==> (forall k int :: 0 <= k && k < len(chunks) ==> chunks[k].chunkSize == (k + 1 < len(chunks) ? chunks[k+1].chunkOffset : size) - chunks[k].chunkOffset)
+//@   ensures[C02] err == nil && chbkt != nil ==> (forall a int, c int :: 0 <= a && a < c && c < len(chunks) ==> chunks[a].chunkOffset <= chunks[c].chunkOffset)
